@@ -152,6 +152,7 @@ package fosite
 //@ ghost ref_acc     : map[string]string   // signature of the access token issued alongside
 //@ ghost ref_req     : map[string]Requester
 //@ ghost stored      : map[V]bool          // request objects owned by the store
+//@ ghost shared      : map[V]bool          // objects a store handed out: another request running at the same time may hold them too
 //@ ghost faults      : int                 // number of storage calls that failed unexpectedly so far
 // transactions
 //@ ghost tx_open      : int
